@@ -77,6 +77,10 @@ def cases():
             out.append(dict(kind="xrun", src=nm, text=text, stdin=inp))
     for name, text in X_REJ.items():
         out.append(dict(kind="xrun-rejected", src=name, text=text, stdin=b""))
+    # every cycle limit around the length of the run: whenever the trace shows that the exit system call was executed, the status is its value
+    for nm, text, v in (("exit7", "proc main() is 0(7)", 7), ("write-exit9", "proc main() is { 1('a', 0); 0(9) }", 9), ("call-exit5", "func f(val n) is return n + 2 proc main() is 0(f(3))", 5)):
+        for n in range(1, 70):
+            out.append(dict(kind="limit", src=nm, text=text, value=v, limit=n, stdin=b""))
     return out
 
 
@@ -182,6 +186,20 @@ def exec_case(i, c):
                     v.append(("xrun-status", "xrun status %s, xcmp+hexsim status %s" % (rc2, rc1)))
                 if so1 != so2:
                     v.append(("xrun-output", "xrun stdout %r, xcmp+hexsim stdout %r" % (so2[:60], so1[:60])))
+        elif c["kind"] == "limit":
+            open(os.path.join(d, "p.x"), "w").write(c["text"])
+            rc, so, se = run([T["xcmp"], "p.x", "-o", "p.bin"], d)
+            if rc != 0:
+                v.append(("accepted-nonzero-status", "xcmp failed: %s" % se[:200]))
+            else:
+                for tool, args in (("hexsim", [T["hexsim"], "-t", "--max-cycles", str(c["limit"]), "p.bin"]), ("xrun", [T["xrun"], "-t", "--max-cycles", str(c["limit"]), "p.x"])):
+                    rc1, so1, se1 = run(args, d, stdin=c["stdin"])
+                    exited = (b"exit %d\n" % c["value"]) in so1
+                    info[tool] = [rc1, exited]
+                    if rc1 == "timeout" or (isinstance(rc1, int) and rc1 < 0):
+                        v.append((tool + "-abnormal-under-limit", "%s ended with %s under --max-cycles %d" % (tool, rc1, c["limit"])))
+                    elif exited and rc1 != (c["value"] & 0xFF):
+                        v.append((tool + "-status-under-limit", "%s --max-cycles %d: the trace shows exit(%d) was executed but the status is %s (%s)" % (tool, c["limit"], c["value"], rc1, se1[:80])))
         elif c["kind"] == "xrun-rejected":
             open(os.path.join(d, "p.x"), "w").write(c["text"])
             rc2, so2, se2 = run([T["xrun"], "p.x"], d, stdin=c["stdin"])
